@@ -331,7 +331,7 @@ func (m *BatchMon) OnEvent(c *eng.Ctx, ms eng.MState, ev *eng.Event) eng.MState 
 		chk("C06.R9,C07.R8", "index-in-bounds", ev.Decided, "slice index "+ev.Key.Pretty()+" is not provably within the length of "+ev.Addr.Pretty()+": the batch can panic instead of settling every item")
 	case "return":
 		// the run is over: nothing it submitted may still be calling user callbacks
-		chk("C04.R3,C06.R4,C11.R4", "run-return", !s.outstanding, "Run returns while submitted tasks may still be running (no Wait on the pool after the last Submit): user callbacks of this run can be invoked after it has ended")
+		chk("C04.R3,C06.R4,C11.R4,C09.R8", "run-return", !s.outstanding, "Run returns while submitted tasks may still be running (no Wait on the pool after the last Submit): user callbacks of this run can be invoked after it has ended")
 	case "mapupdate", "mapdelete":
 		chk("C07.R4", "shared-write", false, "batch processing writes a map shared between items")
 	case "append":
@@ -802,7 +802,7 @@ func (m *BatchMon) onPost(c *eng.Ctx, s batchState, life lifeState, ev *eng.Even
 	items, results := unbox(ev.Args[2]), unbox(ev.Args[3])
 	boxed := ev.Args[2].K == eng.KBox && ev.Args[3].K == eng.KBox && isSliceOf(ev.Args[2].T, m.R.Result) && isSliceOf(ev.Args[3].T, m.R.Result)
 	chk("C06.R6", "post", boxed, "batch post must receive the item list and the result list as []Result, got ("+prettyArgs(ev.Args)+")")
-	chk("C06.R4,C11.R4,C04.R3", "post", !s.outstanding, "post is invoked while submitted tasks may still be running (no Wait on the pool after the last Submit): exec callbacks can then follow post, or a failure that ends the run")
+	chk("C06.R4,C11.R4,C04.R3,C09.R8", "post", !s.outstanding, "post is invoked while submitted tasks may still be running (no Wait on the pool after the last Submit): exec callbacks can then follow post, or a failure that ends the run")
 	li, lr := c.E.LenTerm(c.St, items), c.E.LenTerm(c.St, results)
 	// empty batch: both lists empty
 	if c.Eval(eng.Bin("==", li, eng.ConstInt(0))) == eng.TriTrue {
@@ -844,7 +844,7 @@ func (m *BatchMon) onPost(c *eng.Ctx, s batchState, life lifeState, ev *eng.Even
 	}
 	chk("C06.R2,C09.R3,C11.R3,C17.R1", "post", rr.broken == "", "result slots are not written once per iteration: "+rr.broken)
 	chk("C06.R2,C09.R3,C11.R3", "post", rr.startOK, "the first iteration does not write slot 0")
-	chk("C06.R2,C07.R5,C09.R4,C11.R3,C17.R1", "post", rr.resBad == "", rr.resBad)
+	chk("C06.R2,C07.R5,C09.R4,C11.R3,C17.R1,C02.R5", "post", rr.resBad == "", rr.resBad)
 	chk("C20.R6,C11.R5", "post", rr.cutBad == "", rr.cutBad)
 	chk("C02.R5,C07.R3", "post", rr.fbBad == "", rr.fbBad)
 	chk("C06.R5,C07.R2", "post", rr.iterBad == "", rr.iterBad)
